@@ -305,3 +305,38 @@ def load(cfg, relpath):
     if key not in _MOD_CACHE:
         _MOD_CACHE[key] = PyModule(cfg, relpath)
     return _MOD_CACHE[key]
+
+
+def const_value(cfg, mod, name, depth=0):
+    """Fold a module-level integer/str constant, following `from x import NAME` inside tools/."""
+    if depth > 6:
+        return None
+    if name in mod.consts:
+        return fold(cfg, mod, mod.consts[name], depth)
+    origin = mod.imports.get(name)
+    if origin and '.' in origin:
+        modpath, attr = origin.rsplit('.', 1)
+        rel = 'tools/' + modpath.replace('.', '/') + '.py'
+        if os.path.exists(os.path.join(cfg.repo, rel)):
+            return const_value(cfg, load(cfg, rel), attr, depth + 1)
+    return None
+
+
+def fold(cfg, mod, node, depth=0):
+    if isinstance(node, ast.Constant) and isinstance(node.value, (int, str)) and not isinstance(node.value, bool):
+        return node.value
+    if isinstance(node, ast.Name):
+        return const_value(cfg, mod, node.id, depth + 1)
+    if isinstance(node, ast.UnaryOp) and isinstance(node.op, ast.USub):
+        v = fold(cfg, mod, node.operand, depth)
+        return -v if isinstance(v, int) else None
+    if isinstance(node, ast.BinOp):
+        l, r = fold(cfg, mod, node.left, depth), fold(cfg, mod, node.right, depth)
+        if isinstance(l, int) and isinstance(r, int):
+            try:
+                return {ast.Add: l + r, ast.Sub: l - r, ast.Mult: l * r, ast.FloorDiv: l // r if r else None,
+                        ast.Mod: l % r if r else None, ast.Pow: l ** r if 0 <= r < 64 else None,
+                        ast.LShift: l << r if 0 <= r < 64 else None}.get(type(node.op))
+            except Exception:
+                return None
+    return None
